@@ -334,7 +334,7 @@ ACK_CHAIN = [["new"], ["reg"], ["er", "cur", "A", "A", None, None, None, None, N
              ["er", "cur", "0", "0", None, QTY_A, None, None, None, None]]
 # profile -> (spine predicate, root paths, depth below the roots)
 SPINES = {
-    "market": (spine_market, [ACK_CHAIN], 2),
+    "market": (spine_market, [ACK_CHAIN], 1),
     "resession": (spine_resession, [ACK_CHAIN + [["newft"]], [["hand_ack"]]], 1),
 }
 
@@ -1007,6 +1007,7 @@ def run(ctx):
         "an exception raised by the helper itself (AssertionError or other) is a refusal: the argument combination is out of scope",
         "ClOrdID arguments are restricted to the ids the order currently holds (a foreign id is rejected by the order object; pinned by test_exec_report_clord_mismatch)",
         "order is a LIMIT order with finite price and a string account; quantities 10 and 12; a second, shallower BFS uses an order with non-ASCII ticker / account",
+        "further directed passes (full grid in every state): an order subclass whose set_price_qty() hook leaves Price out (market order; quick: acknowledged order + cancel / replace request, thorough: full BFS), and orders the helper instance first sees through fix_cxl_request / fix_rep_request (second helper instance after an acknowledgement through the first; acknowledgement by hand-made reports)",
         "chains are extended with exchange-consistent reports only (all other accepted reports are judged and processed one step deep)",
         "quick tier: FIXSchema.validate (0.6 ms per call) runs on every message showing a new tag set or a new (tag, value) pair; the independent dictionary reading runs on every message; thorough tier: FIXSchema.validate on every distinct content",
         "fidelity: no virtual time passes during a script (heartbeat timers never fire); application hooks do not send",
